@@ -200,6 +200,7 @@ def run_history(cfg, outcome_mix=None, reload_p=0.04, reask_p=0.08, until_stoppe
         wrap(o)
         held = {}; reported = {}; ops = []; obs = []; stopped = set(); pop_exc = None
         W = cfg["W"]; cap = step_cap or cfg["nsteps"]
+        as_copy = random.Random(cfg["hseed"] ^ 0x5bd1e995).random() < 0.3
         nsteps = 0
         while nsteps < cap:
             nsteps += 1
@@ -214,7 +215,7 @@ def run_history(cfg, outcome_mix=None, reload_p=0.04, reask_p=0.08, until_stoppe
                 t = held[tn]
                 if rng.random() < 0.45:
                     r = rng.random()
-                    v = float("nan") if r < mix["NAN"] else (rng.choice([math.inf, -math.inf]) if r < mix["NAN"] + mix["INF"] else float(60 * rng.randint(-5, 5)))
+                    v = float("nan") if r < mix["NAN"] else (rng.choice([math.inf, -math.inf]) if r < mix["NAN"] + mix["INF"] else float(60 * rng.randint(*cfg.get('score_range', (-5, 5)))))
                     st = rng.choice([0, 0, 0, 1, 2])
                     if negate:
                         v = -v
@@ -230,6 +231,10 @@ def run_history(cfg, outcome_mix=None, reload_p=0.04, reask_p=0.08, until_stoppe
                     t.status = "FAILED"; oc = "EFailed"
                 reported.pop(tn, None)
                 tid = int(t.trial_id)
+                if as_copy:
+                    # the chief/worker layer hands end_trial a reconstructed copy of the trial, not the oracle's own object
+                    from keras_tuner.engine import trial as trial_module
+                    tc = trial_module.Trial.from_state(t.get_state()); tc.status = t.status; t = tc
                 try:
                     o.end_trial(t); resp = ("none",)
                 except RuntimeError as e:
